@@ -200,6 +200,10 @@ func keyAlign(c AlignCase) []byte {
 	return append(k, c.B...)
 }
 
-func TestC08(t *testing.T) {
-	Run(t, Prop[AlignCase]{ID: "C08", Gen: genC08, Exhaustive: exhaustiveC08, Check: checkC08, Key: keyAlign})
+func propC08() Prop[AlignCase] {
+	return Prop[AlignCase]{ID: "C08", Gen: genC08, Exhaustive: exhaustiveC08, Check: checkC08, Key: keyAlign}
 }
+
+func TestC08(t *testing.T) { Run(t, propC08()) }
+
+func FuzzGenC08(f *testing.F) { RunFuzz(f, propC08()) }
